@@ -147,6 +147,8 @@ fn main() {
             Some("search-c1") => c19::search_c1_scalars(),
             Some("search-sig") => c04::search_small_components(),
             Some("draw") => c14::print_draws(),
+            Some("search-e") => c04::search_big_e(),
+            Some("search-zuc") => c08::search_s16_zero_work(),
             _ => eprintln!("unknown tool"),
         },
         Some("selftest") => {
